@@ -31,6 +31,7 @@ rules = [
  (r"src/fontinfo\.rs\|impl FontInfo::dump_object_libs\|unwrap", ML("C03_object_libs")),
  (r"src/fontinfo\.rs\|impl FontInfo::dump_object_libs\|guards", MD("odump")),
  (r"src/fontinfo\.rs\|impl FontInfo::from_file\|unwrap", ML("C03_upconversion_abs_unwrap")),
+ (r"src/fontinfo\.rs\|impl NonNegativeIntegerOrFloat::new\|guards", MD("Upconv.map_abs_num")),
  (r"src/fontinfo\.rs\|impl FontInfo::validate\|index", ML("C03_date_slices")),
  (r"src/fontinfo\.rs\|impl FontInfo::validate\|arith\|v\.len\(\) % 2", TI("remainder by the non-zero literal 2")),
  (r"src/fontinfo\.rs\|impl FontInfo::validate\|unwrap\|vs_iter", ML("C03_gasp_first")),
